@@ -71,7 +71,7 @@ def enc_cases(ck, count, maxchunks=5, exhaustive_lengths=False):
             T = Ts[(i // 15) % len(Ts)] if n % 3 else r.choice(Ts)
             i += 1
             res.append(EncCase(n, cm, hm, T, rnd_key(r), rnd_seed(r), rnd_bytes(r, n), "len=%s" % lencls(n)))
-        return res
+        return res + related_block_cases(ck, 45)
     i = 0
     while len(res) < count:
         n = lens[(i * 7) % len(lens)] if r.random() < 0.45 else r.randrange(0, maxchunks * CH + 40)
@@ -79,6 +79,36 @@ def enc_cases(ck, count, maxchunks=5, exhaustive_lengths=False):
         T = Ts[(i // 3) % len(Ts)]
         i += 1
         res.append(EncCase(n, cm, hm, T, rnd_key(r), rnd_seed(r), rnd_bytes(r, n), "len=%s" % lencls(n)))
+    return res + related_block_cases(ck, max(4, count // 12))
+
+
+def related_block_cases(ck, count):
+    """plaintexts in which, inside every worker's stream, a block is related to what that stream's cipher object saw or produced
+    just before (common.feedback_streams; encryption side: plaintext block = previous ciphertext block etc.; decryption side: the
+    CIPHERTEXT block equals the previous plaintext block etc.) - state remembered from one block to the next only shows on these"""
+    import hashlib
+    r = ck.rng
+    plan = []
+    for i in range(count):
+        T = r.choice([1, 1, 2, 3])
+        k = r.choice([1, 2])
+        cm, d = (0, "ed"[i % 2]) if i % 3 == 0 else (r.randrange(5), r.choice("ed"))
+        plan.append((T, k, cm, d, rnd_key(r), rnd_seed(r), i % 3))
+    specs = []
+    for (T, k, cm, d, key, seed, hm) in plan:
+        iv = hashlib.sha1(seed).digest()
+        for s in range(T):
+            specs.append((d, cm, key, iv))
+    streams = feedback_streams(ck, specs, BUF * 2)
+    res, q = [], 0
+    for (T, k, cm, d, key, seed, hm) in plan:
+        mine = streams[q:q + T]
+        q += T
+        per = [(x if d == "e" else y)[:16 * BUF * k] for (x, y, _) in mine]
+        plain = b"".join(per[j % T][CH * (j // T):CH * (j // T + 1)] for j in range(T * k))
+        cut = r.choice([0, 0, 1, 16])
+        plain = plain[:len(plain) - cut] if cut else plain
+        res.append(EncCase(len(plain), cm, hm, T, key, seed, plain, "related-blocks/%s-side" % ("encrypt" if d == "e" else "decrypt")))
     return res
 
 
